@@ -50,7 +50,22 @@
 (* transcribed (Selection.tla, C01): a case fixes the SHAPE (number of     *)
 (* inputs and change outputs) and the model uses round values; the TTL is  *)
 (* three-valued (none / reached / far); versions are opaque; the weight    *)
-(* limit and NRD activation of Transaction::validate are "NRD is off".     *)
+(* limit and NRD activation of Transaction::validate are "NRD is off";     *)
+(* the SORT ORDER Transaction::validate demands of inputs and outputs is   *)
+(* not modelled - the harness re-sorts an altered commitment list the way  *)
+(* a wallet emits it, so that no class is refused for its order alone.     *)
+(* A case may carry TWO alterations (tamper, then tamper2 on the reply);   *)
+(* CanApply says whether the second still finds what it alters.            *)
+(*                                                                         *)
+(* Facts the algebra establishes that are worth knowing (all confirmed on  *)
+(* the real code by the trace validation, none of them a C02 violation):   *)
+(*  - in a self-invoice the reply may lose the payer-role participant      *)
+(*    entry AND its offset together and still finalizes into a valid,      *)
+(*    exact transaction (kernel excess = the issuer-role key alone);       *)
+(*  - commitments of the reply that the finalizer also holds in its own    *)
+(*    context (self-invoice) may be dropped or mangled: they are re-added; *)
+(*  - in a late-locked send the payment-proof record is made from the      *)
+(*    REPLY, so a reply stripped of its proof finalizes without one (C11). *)
 (***************************************************************************)
 EXTENDS Integers, Sequences, FiniteSets, TLC
 
@@ -138,7 +153,7 @@ FeeOk(tx) == tx.msg # BadMsg /\ tx.msg.fee >= Fee(Len(InsOf(tx.coms)), Len(OutsO
 \* 2. CODE
 \* ======================================================================
 \* ---- a case and the honest deal it stands for
-\* case: [flow: send|late|self|inv|invself, nin, nch, incfee, proof, stage: none|pre|post, tamper]
+\* case: [flow: send|late|self|inv|invself, nin, nch, incfee, proof, stage: none|pre|post, tamper, tamper2]
 Flows == {"send", "late", "self", "inv", "invself"}
 IsInvoice(c) == c.flow \in {"inv", "invself"}
 InVal == 1000
@@ -396,7 +411,7 @@ Tamper(s, class, env) ==
     [] class = "part_none" -> [s EXCEPT !.parts[1].part = NoSig]
     [] class = "part_fresh" -> [s EXCEPT !.parts[1].part = AdvSig(s.parts, env, "ax2", "ak2")]
     \* a genuine signature of the same counterparty from an EARLIER exchange: other key, nonce, sums
-    [] class = "part_stale" -> [s EXCEPT !.parts[1].part = Sig(At("xC0"), At("kC0"), BAdd(At("kC0"), At("kF0")), BAdd(At("xC0"), At("xF0")), p1.part.msg)]
+    [] class = "part_stale" -> [s EXCEPT !.parts[1].part = Sig(At("xC0"), At("kC0"), BAdd(At("kC0"), At("kF0")), BAdd(At("xC0"), At("xF0")), Msg(0, env.fee, NoArgs))]
     [] class = "entry_drop" -> [s EXCEPT !.parts = <<>>]
     [] class = "entry_dup" -> [s EXCEPT !.parts = Append(s.parts, p1)]
     [] class = "entry_add" -> [s EXCEPT !.parts = Append(s.parts, Part(At("ax"), At("ak"), NoSig))]
@@ -424,19 +439,43 @@ Tamper(s, class, env) ==
     [] class = "pp_saddr" -> [s EXCEPT !.pp.saddr = "aA"]
     [] class = "pp_add" -> [s EXCEPT !.pp = [on |-> TRUE, saddr |-> "aB", raddr |-> "aA", rsig |-> PSig("aA", 0, BZero, "aA")]]
 
-\* which classes exist for which case (the harness skips exactly the others)
+ComPositional == {"out_drop", "out_replace", "out_dup", "out_to_in", "out_feat_cb", "proof_swap", "commit_swap",
+                  "in_drop", "in_replace", "in_to_out"}
+ComRewrite == ComPositional \cup {"out_add_adj", "out_add_noadj", "in_add_adj", "inout_add_adj"}
+
+\* whether a class can be realised on a given slate (tamper.rs returns Err in exactly the other
+\* situations); matters when two alterations are composed
+CanApply(s, class) ==
+  /\ (class \in {"xs_fresh", "pre_xs", "nonce_fresh", "pre_nonce", "xs_other", "nonce_other", "both_other", "part_none", "part_fresh",
+                  "part_stale", "entry_drop", "entry_dup"} => Len(s.parts) >= 1)
+  /\ (class \in {"out_add_adj", "out_add_noadj", "in_add_adj", "inout_add_adj", "coms_none"} => s.hascoms)
+  /\ (class \in {"out_drop", "out_replace", "out_dup", "out_to_in", "out_feat_cb", "proof_swap", "commit_swap"} => FirstIdx(s.coms, "out") > 0)
+  /\ (class \in {"in_drop", "in_replace", "in_to_out"} => FirstIdx(s.coms, "in") > 0)
+  /\ (class = "off_zero" => s.off # BZero)
+  /\ (class \in {"pp_drop", "pp_rsig_none", "pp_rsig_fresh", "pp_raddr", "pp_saddr"} => s.pp.on)
+  /\ (class = "pp_add" => ~s.pp.on)
+  /\ (class = "st_swap" => s.st \in {"S2", "I2"})
+
+\* which classes exist for which case (the harness skips exactly the others).
+\* case.tamper2: a second alteration of the reply ("none", or a PostClass applied after `tamper`)
+StaticOk(c, t) ==
+  /\ (t \in {"pp_drop", "pp_rsig_none", "pp_rsig_fresh", "pp_raddr", "pp_saddr"} => c.proof)
+  /\ (t = "pp_add" => ~c.proof)
+  /\ (t \in {"in_drop", "in_replace", "in_to_out"} => IsInvoice(c))
+  /\ (t \in {"out_drop", "out_replace", "out_dup", "out_to_in", "out_feat_cb", "proof_swap", "commit_swap"}
+        => (~IsInvoice(c) \/ c.nch > 0))
 Applicable(c) ==
   /\ c.flow \in Flows /\ c.nin \in {1, 2} /\ c.nch \in {0, 1, 2}
   /\ (c.incfee => c.flow \in {"send", "self"})
   /\ (c.proof => c.flow \in {"send", "late"})
   /\ \/ c.stage = "none" /\ c.tamper = "none"
      \/ c.stage = "pre" /\ c.tamper \in PreClasses
-     \/ /\ c.stage = "post" /\ c.tamper \in PostClasses
-        /\ (c.tamper \in {"pp_drop", "pp_rsig_none", "pp_rsig_fresh", "pp_raddr", "pp_saddr"} => c.proof)
-        /\ (c.tamper = "pp_add" => ~c.proof)
-        /\ (c.tamper \in {"in_drop", "in_replace", "in_to_out"} => IsInvoice(c))
-        /\ (c.tamper \in {"out_drop", "out_replace", "out_dup", "out_to_in", "out_feat_cb", "proof_swap", "commit_swap"}
-              => (~IsInvoice(c) \/ c.nch > 0))
+     \/ c.stage = "post" /\ c.tamper \in PostClasses /\ StaticOk(c, c.tamper)
+  /\ \/ c.tamper2 = "none"
+     \/ /\ c.stage # "none" /\ c.tamper2 \in PostClasses /\ c.tamper2 # c.tamper /\ StaticOk(c, c.tamper2)
+        \* the positional classes alter "the first output / input" of the list: after an alteration that
+        \* adds or rewrites a commitment, which one is first depends on the sort order (not modelled)
+        /\ ~(c.tamper \in ComRewrite /\ c.tamper2 \in ComPositional)
   \* an invoice whose amount was altered on the way changes the payer's selection: only with change to absorb it
   /\ (c.tamper \in {"pre_amt_plus", "pre_amt_minus"} /\ IsInvoice(c) => c.nch > 0)
 
@@ -460,11 +499,15 @@ Exchange(c) ==
   IF step.res # "ok" THEN [reply |-> FALSE, why |-> step.why]
   ELSE
   LET env == [amt |-> DealAmt(c), fee |-> DealFee(c), fin |-> init.slate.parts[1]]
-      r == IF c.stage = "post" THEN Tamper(step.slate, c.tamper, env) ELSE step.slate
+      can1 == c.stage # "post" \/ CanApply(step.slate, c.tamper)
+      r1 == IF c.stage = "post" /\ can1 THEN Tamper(step.slate, c.tamper, env) ELSE step.slate
+      can2 == c.tamper2 = "none" \/ CanApply(r1, c.tamper2)
+      r == IF c.tamper2 # "none" /\ can2 THEN Tamper(r1, c.tamper2, env) ELSE r1
       mine == IF self THEN step.ctx ELSE init.ctx
-      ctxs == IF c.tamper = "id_other" THEN [x \in {"s", "o"} |-> IF x = "s" THEN mine ELSE other]
+      ctxs == IF "id_other" \in {c.tamper, c.tamper2} THEN [x \in {"s", "o"} |-> IF x = "s" THEN mine ELSE other]
               ELSE [x \in {"s"} |-> mine] IN
-  [reply |-> TRUE, r |-> r, ctxs |-> ctxs, fin |-> Finalize(c, ctxs, r)]
+  IF ~(can1 /\ can2) THEN [reply |-> FALSE, why |-> "inapplicable"]
+  ELSE [reply |-> TRUE, r |-> r, ctxs |-> ctxs, fin |-> Finalize(c, ctxs, r)]
 
 \* "exact": the inputs reserved, the change recorded, the amount and the fee agreed at initiation
 Exact(c, tx) ==
